@@ -327,6 +327,8 @@ RULES = [
     {'arg_paths': [(0, '/aa/')]}, {'arg_paths': [(0, '/aa/bb')]}, {'arg_paths': [(0, '/aa')]},
     {'mtype': 'signal', 'interface': 'org.a.I', 'member': 'Sig', 'path': '/a/b'},
     {'path_namespace': '/a/b', 'args': [(0, 'x')]},
+    # only STRING arguments can satisfy an argument constraint: 5, True, 2.5 are not '5', 'True', '2.5'
+    {'args': [(0, '5')]}, {'args': [(0, 'True')]}, {'args': [(0, '2.5')]}, {'arg_paths': [(0, '5')]}, {'args': [(0, "['x']")]},
 ]
 MSGS = [
     {'type': 4, 'interface': 'org.a.I', 'member': 'Sig', 'path': '/a/b'},
@@ -340,6 +342,10 @@ MSGS = [
     {'type': 4, 'interface': 'org.a.I', 'member': 'Sig', 'path': '/a/b', 'destination': ':1.5', 'body': ['x']},
     {'type': 1, 'interface': 'org.a.I', 'member': 'Sig', 'path': '/a/b', 'body': ['x']},
     {'type': 4, 'interface': 'org.a.I', 'member': 'Sig', 'path': '/a/b', 'body': [['x']]},
+    {'type': 4, 'interface': 'org.a.I', 'member': 'Sig', 'path': '/a/b', 'body': [True]},
+    {'type': 4, 'interface': 'org.a.I', 'member': 'Sig', 'path': '/a/b', 'body': [2.5]},
+    {'type': 4, 'interface': 'org.a.I', 'member': 'Sig', 'path': '/a/b', 'body': [5]},
+    {'type': 4, 'interface': 'org.a.I', 'member': 'Sig', 'path': '/a/b', 'body': ['5']},
 ]
 
 
@@ -513,6 +519,37 @@ def removal_during_dispatch_case():
     return None
 
 
+def shared_callback_case():
+    """one callback (the same function, bound methods of one object) registered under several rules is invoked once PER MATCHING
+    RULE; removing one of the rules takes away exactly that rule's invocation"""
+    from txdbus import router
+
+    class Receiver:
+        def __init__(self): self.got = []
+        def on_signal(self, m): self.got.append(m)
+    for rules in ([RULES[1], RULES[3], RULES[4], {}], [RULES[3], RULES[3]], [RULES[9], RULES[15], RULES[6]]):
+        r = router.MessageRouter()
+        rc = Receiver()
+        plain = []
+        f = plain.append
+        ids = [r.addMatch(rc.on_signal, **rule) for rule in rules] + [r.addMatch(f, **rule) for rule in rules]
+        for md in MSGS:
+            del rc.got[:], plain[:]
+            r.routeMessage(FakeMsg(md))
+            want = sum(1 for rule in rules if ref_matches(rule, md))
+            if len(rc.got) != want or len(plain) != want:
+                return 'one callback registered under the rules %r: %r matches %d of them, the bound method was invoked %d times, the function %d times' % (
+                    rules, md, want, len(rc.got), len(plain))
+        r.delMatch(ids[0])
+        for md in MSGS:
+            del rc.got[:]
+            r.routeMessage(FakeMsg(md))
+            want = sum(1 for rule in rules[1:] if ref_matches(rule, md))
+            if len(rc.got) != want:
+                return 'after removing the first of the rules %r sharing one callback: %r invoked it %d times, expected %d' % (rules, md, len(rc.got), want)
+    return None
+
+
 def daemon_rule_text_case():
     """the rule text the client writes, parsed by the daemon (Bus.dbus_AddMatch), selects exactly the signals the
     constraints describe - including argument indices of two digits (the specification allows arg0 .. arg63)"""
@@ -607,7 +644,7 @@ def bounded(tier, seed):
             f = route_case([RULES[a], RULES[b]], MSGS[:6], raising, removed)
             if f:
                 return n, f, {'rules': [RULES[a], RULES[b]], 'raising': raising, 'removed': removed}
-    for _ in range(3000 if tier == 'thorough' else 40):
+    for _ in range(20000 if tier == 'thorough' else 40):
         k = rnd.randrange(1, 5)
         rules = [dict(rnd.choice(RULES), **rnd.choice(RULES)) for _ in range(k)]
         raising = tuple(i for i in range(k) if rnd.random() < 0.3)
@@ -616,12 +653,12 @@ def bounded(tier, seed):
         f = route_case(rules, MSGS, raising, removed)
         if f:
             return n, f, {'rules': rules, 'raising': raising, 'removed': removed}
-    for _ in range(400 if tier == 'thorough' else 40):
+    for _ in range(5000 if tier == 'thorough' else 40):
         n += 1
         f = interleaved_history_case(rnd)
         if f:
             return n, f, {'case': 'interleaved add/remove history'}
-    for case in (client_text_case, client_daemon_consistency_case, daemon_rule_text_case, removal_during_dispatch_case, proxy_signature_case):
+    for case in (client_text_case, client_daemon_consistency_case, daemon_rule_text_case, removal_during_dispatch_case, shared_callback_case, proxy_signature_case):
         n += 1
         f = case()
         if f:
@@ -637,7 +674,7 @@ def replay(function, clause, model):
 def run_bounded(tier, seed):
     n, f, inp = bounded(tier, seed)
     return {'tool': 'enumeration of rules x signals x add/remove histories (real MessageRouter / client.addMatch / RemoteDBusObject.notifyOnSignal) against a reference matcher',
-            'bound': '16 rules x 11 messages singly, all rule pairs with raising / removed variants, %d random rule sets of up to 4 merged rules; client rule text, the daemon\'s parsing of that text (indices up to 63) and proxy signature filter cases' % (3000 if tier == 'thorough' else 40),
+            'bound': '21 rules x 15 messages singly, all rule pairs with raising / removed variants, %d random rule sets of up to 4 merged rules; client rule text, the daemon\'s parsing of that text (indices up to 63) and proxy signature filter cases' % (20000 if tier == 'thorough' else 40),
             'evaluations': n, 'failures': [] if not f else [{'function': 'txdbus.router', 'clause': 'delivery', 'input': inp, 'detail': f}]}
 
 
